@@ -26,6 +26,11 @@
 (* coincide with one run returns the id "?" (garbage) - this is how a      *)
 (* wrong offset becomes visible as a garbled field.                        *)
 (*                                                                         *)
+(* Legacy encodings: the node info grew over protocol versions; its newer  *)
+(* fields are optional at the end (decoded only while bytes remain).  The  *)
+(* shapes include node infos cut after each such field; the decoder must   *)
+(* return the same message with the missing fields at their zero value.    *)
+(*                                                                         *)
 (* Deviations (constant Dev):                                              *)
 (*   DevQueuedOffset33     DecodeQueuedState advances 33+16*|SeenBy| past  *)
 (*                         the sleep command instead of its real size      *)
@@ -35,6 +40,9 @@
 (*                         address (type 0) encodes to 43                  *)
 (*   DevPreallocFromCount  DecodeQueuedState pre-allocates capacity from   *)
 (*                         the unchecked 16-bit count fields               *)
+(*   DevNoLegacyTail       the node-info decoder insists on the fields     *)
+(*                         appended in later versions (legacy encodings    *)
+(*                         rejected); not observed, guards the legacy path *)
 (***************************************************************************)
 EXTENDS Integers, Sequences, FiniteSets, TLC, Json
 
@@ -43,7 +51,7 @@ CONSTANTS Types,   \* message types whose shapes are enumerated
           Emit,    \* TRUE: print VEC / HOSTILE records
           Wide     \* TRUE: more boundary values and pairs of varied fields (thorough tier)
 
-DevNames == {"DevQueuedOffset33", "DevAckMinLen44", "DevPreallocFromCount"}
+DevNames == {"DevQueuedOffset33", "DevAckMinLen44", "DevPreallocFromCount", "DevNoLegacyTail"}
 ASSUME Dev \subseteq DevNames
 
 (* ------------------------------------------------------------------ *)
@@ -67,6 +75,11 @@ Nest(nm, w, g)      == [k |-> "Nest", name |-> nm, w |-> w, g |-> g]
 Un(nm, alts, flag)  == [k |-> "Union", name |-> nm, alts |-> alts, flag |-> flag]
 \* presence byte; if set, grammar g is decoded from the REST of the buffer and the reader advanced explicitly
 Opt(nm, g)          == [k |-> "Opt",  name |-> nm, g |-> g]
+\* fields appended to a message in later protocol versions: decoded only "if r.remaining() > 0", otherwise they
+\* keep their zero value (an encoding that ends before them is a LEGACY encoding)
+OB(nm)              == [k |-> "Bool", name |-> nm, n |-> 1, opt |-> TRUE]
+OLst(nm, w, g, cs)  == [k |-> "List", name |-> nm, w |-> w, g |-> g, counts |-> cs, deep |-> TRUE, opt |-> TRUE]
+IsOpt(f)            == "opt" \in DOMAIN f
 
 L8  == IF Wide THEN {0, 1, 2, 127, 128, 254, 255} ELSE {0, 1, 254, 255}
 C8  == IF Wide THEN {0, 1, 2, 3, 4, 254, 255} ELSE {0, 1, 2, 255}
@@ -154,10 +167,10 @@ G == [g \in GNames |->
     [] g = "NInfo"  -> << Nest("info", 2, "NodeInfo") >>                              \* EncryptedData, plaintext info
     [] g = "NodeInfo" -> << Str8("displayName"), Str8("hostname"), Str8("os"), Str8("arch"), Str8("version"),
                             U("startTime", 8), Lst("ipAddresses", 1, "StrE", C8),
-                            Lst("peers", 1, "Peer", {0, 1, 2, 50}), Fix("publicKey", 32), B("udpEnabled"),
-                            Lst("forwardListeners", 1, "Listener", {0, 1, 2, 20}),
-                            Lst("shells", 1, "StrE", {0, 1, 2, 10}),
-                            B("fileTransferEnabled"), B("shellEnabled"), B("icmpEnabled") >>
+                            Lst("peers", 1, "Peer", {0, 1, 2, 50}), Fix("publicKey", 32), OB("udpEnabled"),
+                            OLst("forwardListeners", 1, "Listener", {0, 1, 2, 20}),
+                            OLst("shells", 1, "StrE", {0, 1, 2, 10}),
+                            OB("fileTransferEnabled"), OB("shellEnabled"), OB("icmpEnabled") >>
     [] g = "Peer"     -> << Fix("peerID", 16), Str8("transport"), U("rttMs", 8), B("isDialer") >>
     [] g = "Listener" -> << Str8("key"), Str8("address") >>
     [] g = "NRA" -> << Nest("e", 2, "RouteAdvertise") >>
@@ -259,8 +272,17 @@ QueuedCross ==
   {[d EXCEPT ![4] = s, ![5] = w] : s \in CmdAlts, w \in CmdAlts}
   \cup (IF Wide THEN {[MinSk("QueuedState") EXCEPT ![4] = s, ![5] = w] : s \in CmdAlts, w \in CmdAlts} ELSE {})
 
+(* legacy encodings of the node info: the record of an older agent ends after the public key or after any of the
+   fields appended since; skeleton = the NodeInfo skeleton cut to its first 15-k fields *)
+NOptInfo == Cardinality({i \in 1..Len(G["NodeInfo"]) : IsOpt(G["NodeInfo"][i])})
+LegacyInfo ==
+  LET d == DefSk("NodeInfoAdvertise") IN
+  {[d EXCEPT ![3] = [tag |-> 0, val |-> << SubSeq(info, 1, Len(info) - k) >>]] :
+       info \in {DefSk("NodeInfo"), MinSk("NodeInfo")}, k \in 1..NOptInfo}
+
 ShapesOf(ty) ==
   SkAlts(ty) \cup (IF ty = "QueuedState" THEN QueuedCross ELSE {})
+             \cup (IF ty = "NodeInfoAdvertise" THEN LegacyInfo ELSE {})
              \cup (IF Wide /\ ty \notin {"QueuedState", "NodeInfoAdvertise", "RouteAdvertise"} THEN SkPairs(ty) ELSE {})
 
 (* abstract message = skeleton + identity of every content field (its path) *)
@@ -274,7 +296,7 @@ AnnotField(f, sk, p) ==
     [] f.k = "Nest"  -> Annot(f.g, sk, q)
     [] f.k = "Union" -> [tag |-> sk.tag, val |-> Annot(f.alts[sk.tag], sk.val, q)]
     [] f.k = "Opt"   -> IF sk = << >> THEN << >> ELSE << Annot(f.g, sk[1], q) >>
-Annot(g, sk, p) == [i \in 1..Len(G[g]) |-> AnnotField(G[g][i], sk[i], p)]
+Annot(g, sk, p) == [i \in 1..Len(sk) |-> AnnotField(G[g][i], sk[i], p)]      \* (Len(sk) < Len(G[g]): legacy)
 
 (* ------------------------------------------------------------------ *)
 (* Layout (the encoders)                                               *)
@@ -298,7 +320,7 @@ LayField(f, v) ==
     [] f.k = "Nest"  -> LET inner == Lay(f.g, v) IN << Run("n", f.w, Bytes(inner), "") >> \o inner
     [] f.k = "Union" -> << Run("n", 1, v.tag, "") >> \o Lay(f.alts[v.tag], v.val)
     [] f.k = "Opt"   -> IF v = << >> THEN << Run("n", 1, 0, "") >> ELSE << Run("n", 1, 1, "") >> \o Lay(f.g, v[1])
-LayFields(fs, vs, i) == IF i > Len(fs) THEN << >> ELSE LayField(fs[i], vs[i]) \o LayFields(fs, vs, i + 1)
+LayFields(fs, vs, i) == IF i > Len(vs) THEN << >> ELSE LayField(fs[i], vs[i]) \o LayFields(fs, vs, i + 1)
 Lay(g, m) == LayFields(G[g], m, 1)
 
 (* ------------------------------------------------------------------ *)
@@ -355,8 +377,13 @@ Push(s, v, n, idx) == [s EXCEPT !.vals = Append(@, v), !.off = @ + n, !.idx = id
 CmdAdvance(cmd, used) == IF "DevQueuedOffset33" \in Dev THEN 33 + 16 * Len(cmd[5]) ELSE used
 
 RECURSIVE ParseFields(_, _, _, _), ParseField(_, _, _), ParseElems(_, _, _, _, _)
+\* value of an optional field the input ends before
+Absent(f) == IF f.k = "List" THEN << >> ELSE [id |-> "-"]
 ParseFields(fs, i, LL, s) ==
-  IF s.st # "ok" \/ i > Len(fs) THEN s ELSE ParseFields(fs, i + 1, LL, ParseField(fs[i], LL, s))
+  IF s.st # "ok" \/ i > Len(fs) THEN s
+  ELSE IF IsOpt(fs[i]) /\ s.off >= s.lim /\ "DevNoLegacyTail" \notin Dev     \* "if r.remaining() > 0 { ... }"
+         THEN ParseFields(fs, i + 1, LL, [s EXCEPT !.vals = Append(@, Absent(fs[i]))])
+  ELSE ParseFields(fs, i + 1, LL, ParseField(fs[i], LL, s))
 
 \* sub-parse of grammar g in [off, lim): fresh value list, same cursor
 SubParse(g, LL, off, idx, lim) ==
@@ -459,7 +486,16 @@ Next == UNCHANGED vec
 Spec == Init /\ [][Next]_vars
 
 Msg == Annot(vec.ty, vec.sk, vec.ty)
-Same(p, m) == p = [st |-> "ok", val |-> m]
+\* the message a decoder must produce: fields a legacy encoding does not carry are absent (zero value)
+RECURSIVE Complete(_, _), CompleteField(_, _)
+CompleteField(f, v) ==
+  CASE f.k = "List"  -> [j \in 1..Len(v) |-> Complete(f.g, v[j])]
+    [] f.k = "Nest"  -> Complete(f.g, v)
+    [] f.k = "Union" -> [tag |-> v.tag, val |-> Complete(f.alts[v.tag], v.val)]
+    [] f.k = "Opt"   -> IF v = << >> THEN << >> ELSE << Complete(f.g, v[1]) >>
+    [] OTHER         -> v
+Complete(g, m) == [i \in 1..Len(G[g]) |-> IF i <= Len(m) THEN CompleteField(G[g][i], m[i]) ELSE Absent(G[g][i])]
+Same(p, m) == p = [st |-> "ok", val |-> Complete(vec.ty, m)]
 
 (* what the transcribed decoder makes of the optional wake command (classification of replay mismatches) *)
 Outcome(ty, p, m) ==
@@ -471,7 +507,7 @@ Outcome(ty, p, m) ==
 
 VecRecord(L, p, m) ==
   PrintT("VEC " \o ToJson([ty |-> vec.ty, sk |-> vec.sk, len |-> Bytes(L), runs |-> L,
-                           parse |-> Outcome(vec.ty, p, m)]))
+                           legacy |-> (Complete(vec.ty, m) # m), parse |-> Outcome(vec.ty, p, m)]))
 HostileRecord ==
   PrintT("HOSTILE " \o ToJson([h |-> vec.sk, prealloc |-> PreAlloc(vec.sk), bound |-> AllocBound(vec.sk.nbytes)]))
 
